@@ -324,6 +324,7 @@ def _unwrap_t(kindname):
 
 K_ITEM = ElemKind('item', ITEM_SORT, VItem, _unwrap_t('item'))
 K_INT = ElemKind('int', z3.IntSort(), VInt, _unwrap_t('int'))
+K_BOOL = ElemKind('bool', z3.BoolSort(), VBool, _unwrap_t('bool'))
 
 
 _Itv = z3.Datatype('Itv')
